@@ -179,6 +179,33 @@ theorem Uniform.run_log {a : List Nat} {t : Tree β} (hu : t.Uniform a) (s : Src
       unfold Src.next
       split <;> rename_i hq <;> simp [hq]
 
+/-! ### leaves -/
+
+/-- `b` is one of the possible results -/
+def IsLeaf (b : β) : Tree β → Prop
+  | .done b' => b = b'
+  | .choose ar k => ∃ c, c < ar ∧ IsLeaf b (k c)
+
+theorem All.of_leaf {P : β → Prop} {t : Tree β} {b : β} (h : t.All P) (hl : IsLeaf b t) : P b := by
+  induction t with
+  | done b' => simp only [IsLeaf] at hl; subst hl; exact h
+  | choose ar k ih =>
+    obtain ⟨c, hc, hl'⟩ := hl
+    exact ih c (h.2 c hc) hl'
+
+/-- the result of running along any recorded stream of choices is a leaf -/
+theorem run_isLeaf {P : β → Prop} {t : Tree β} (h : t.All P) (s : Src) : IsLeaf (t.run s).1 t := by
+  induction t generalizing s with
+  | done b => rfl
+  | choose ar k ih =>
+    simp only [Tree.run, IsLeaf]
+    have hlt : (s.next ar).1 < ar := by
+      unfold Src.next
+      split
+      · exact h.1
+      · exact Nat.mod_lt _ h.1
+    exact ⟨_, hlt, ih _ (h.2 _ hlt) _⟩
+
 /-! ### the sum over all leaves is the sum over all choice vectors fed through `run` -/
 
 /-- `sumOver [a₁,…,aₘ] F = Σ_{v₁<a₁} … Σ_{vₘ<aₘ} F [v₁,…,vₘ]` -/
